@@ -9,6 +9,8 @@ def varDefPosAfterToken : Bool := false
 def argPosAfterToken : Bool := false
 def opLineBeforeSkip : Bool := false
 def maxParseDepth : Option Nat := (some 1000)
+/-- `readFragment`: the type condition of an inline fragment must be a named object / interface / union type (D100, D110) -/
+def condStrict : Bool := true
 /-- `readType`: a list type without a member type (`[]`) is a parse error (D107) -/
 def listNeedsMember : Bool := true
 def parserSkeleton : List (String × String) := [
